@@ -298,7 +298,11 @@ def run_random(spec, res, kernel):
             T, K, cls2 = 1, int(rng.integers(1, 6)), "gauss"
         elif cls == "K1":
             T, K, cls2 = int(rng.integers(1, 12)), 1, "gauss"
-        elif u < 0.03:
+        elif u < 0.034 and not spec.get("jit_bc"):
+            # very long tables (size-threshold paths, accumulated rounding)
+            T, K, cls2 = int(rng.choice([4097, 10000, 20011])), int(rng.integers(2, 4)), ["gauss", "smallint", "dyadic"][int(rng.integers(0, 3))]
+            res.count("long_tables")
+        elif u < 0.06:
             # many clusters: labels beyond 255 / 65535-safe storage of back-pointers
             T, K, cls2 = int(rng.integers(2, 14)), int(rng.choice([257, 300, 700, 1100])), "gauss"
             res.count("large_K_cases")
@@ -367,6 +371,8 @@ def replay(case, res):
 def finalize(merged, tier):
     out = {"inconclusive": []}
     c = merged["counters"]
+    if c.get("long_tables", 0) < 5:
+        out["inconclusive"].append("only %d tables with more than 4096 points" % c.get("long_tables", 0))
     if c.get("large_K_cases", 0) < 20:
         out["inconclusive"].append("only %d cases with more than 256 clusters" % c.get("large_K_cases", 0))
     if c.get("predict_calls_checked", 0) < 300:
